@@ -58,6 +58,10 @@ for prop in props:
                   VERIF_MAX_REPORTS='2'))
   keys = [l.strip()[4:] for l in r.stdout.splitlines() if l.startswith('  key=')]
   last = r.stdout.strip().splitlines()[-2:] if r.stdout.strip() else []
+  if meta['checks'].get(prop, {}).get('rc') == 0 and r.returncode == 1:
+    # missed by the check as it stood when the change arrived; caught after the
+    # check was strengthened (DESIGN 13)
+    meta.setdefault('missed_before_strengthening', {})[prop] = meta['checks'][prop]
   meta['checks'][prop] = {'rc': r.returncode, 'keys': keys[:4],
                           'wall_s': round(time.time() - t0),
                           'summary': [l[:200] for l in last]}
